@@ -11,8 +11,11 @@ BASE := -g -O1 -fno-omit-frame-pointer -fno-inline-functions -DHAVE_CONFIG_H -D_
 ASAN := -fsanitize=address -fsanitize=bounds -fno-sanitize-recover=all
 LIBQB_A := $(B)/libqb_asan.a
 ENGINE_O := $(B)/engine/vp.o
+SCHED_O := $(B)/engine/vp_sched.o $(B)/engine/vp_tsan_abi.o
+SCHED_WRAP := -Wl,--wrap=pthread_mutex_lock -Wl,--wrap=pthread_mutex_trylock -Wl,--wrap=pthread_mutex_unlock -Wl,--wrap=pthread_spin_lock -Wl,--wrap=pthread_spin_trylock -Wl,--wrap=pthread_spin_unlock -Wl,--wrap=sem_wait -Wl,--wrap=sem_trywait -Wl,--wrap=sem_post -Wl,--wrap=sem_getvalue
 
 HARNESSES := $(patsubst harness/%.c,%,$(wildcard harness/c[0-9][0-9]_*.c))
+.PRECIOUS: $(B)/engine/%.o $(B)/tsan/%.o $(B)/asan/%.o
 .PHONY: all clean setup
 all: setup
 setup: $(HARNESSES:%=$(B)/%)
@@ -25,7 +28,7 @@ $(LIBQB_A): $(LIBSRC:%=$(B)/asan/%.o)
 	@rm -f $@
 	ar rcs $@ $^
 
-$(B)/engine/%.o: engine/%.c engine/vp.h
+$(B)/engine/%.o: engine/%.c engine/vp.h engine/vp_sched.h
 	@mkdir -p $(dir $@)
 	$(CC) $(BASE) $(ASAN) $(INC) -MMD -MP -c $< -o $@
 
